@@ -115,7 +115,9 @@ def run(ctx):
             ctx.anchor_missing(RULE, 'pool of %s' % tree, PROPS)
             continue
         r = roles[pool]
-        pool_fns = {f.path for f in prog.fns.values() if f.self_adt == pool and not f.is_closure and f.name != 'new'}
+        # (a pool function that takes `&self` reads: `len`, `occupied`, `capacity` are no writes)
+        pool_fns = {f.path for f in prog.fns.values() if f.self_adt == pool and not f.is_closure and f.name != 'new'
+                    and not (f.body.arg_count >= 1 and f.body.locals[1]['ty'].startswith('&') and not f.body.locals[1]['ty'].startswith('&mut'))}
         fam_fns = [f for f in prog.fns.values() if f.self_adt in (tree, pool) and not f.is_closure]
         writes = {f.path: arena_writes(prog, f, pool_fns) for f in fam_fns}
         # constructors build a fresh value: not state of an existing collection
